@@ -226,7 +226,7 @@ theorem c10_token_raw_counterexample :
     IpcHub.HlsSpec.queryValue "a&b".toList = none
     ∧ IpcHub.HlsSpec.uriSeq "/s".toList "a&b".toList "/streams/s/7.ts?token=a&b".toList = none
     ∧ IpcHub.HlsSpec.uriSeq "/s".toList "a&b".toList "/streams/s/7.ts?token=a%26b".toList = some 7 := by
-  decide
+  decide +kernel
 
 /-- Read stability under roll-over (storage LTS, every interleaving): with the regenerated fact
     `memoryGetCopies = true`, a reader obtained by `Segment(seq)` while the file of `seq` holds the
